@@ -94,7 +94,7 @@ static sexp_sint_t ts_on_instr(sexp ctx, unsigned char *ip, sexp_sint_t fuel) {
   if (vh_budget && ++vh_instrs > vh_budget) {
     vh_instrs = 0;
     vh_budget_hits++;
-    if (vh_budget_hits > 50) ts_abort("BUDGET-ABORT", 9);
+    if (vh_budget_hits > 200000) ts_abort("BUDGET-ABORT", 9);
     sexp_context_interruptp(ctx) = 1;
     return 1;
   }
